@@ -118,6 +118,7 @@ fn gen_file_bytes(w: &mut Tape) -> Result<(Syntax, Vec<u8>, ds::Layout, usize), 
         all_undefined: false,
         latin1: w.chance(1, 4),
         utf8: w.chance(1, 5),
+        other_cs: [0u8, 0, 0, 0, 3, 4][w.below(6) as usize],
     };
     let model = restrict_to(&ds::gen_dataset(w, &gcfg), syn);
     let (dataset, layout) = ds::encode(&model, syn, None).map_err(harness)?;
@@ -240,6 +241,7 @@ fn run_dataset(w: &mut Tape, env: &EnvRef) -> RunResult {
         all_undefined: false,
         latin1: w.chance(1, 4),
         utf8: w.chance(1, 5),
+        other_cs: [0u8, 0, 0, 0, 3, 4][w.below(6) as usize],
     };
     let model = restrict_to(&ds::gen_dataset(w, &gcfg), syn);
     let (mut bytes, layout) = ds::encode(&model, syn, None).map_err(harness)?;
@@ -403,6 +405,7 @@ fn run_json(w: &mut Tape, env: &EnvRef) -> RunResult {
         all_undefined: true,
         latin1: false,
         utf8: false,
+        other_cs: 0,
     };
     let model = model_items_undef(&restrict_to(&ds::gen_dataset(w, &gcfg), Syntax::ImplicitLE));
     let obj = build_object(&model, Syntax::ExplicitLE);
